@@ -31,3 +31,35 @@ func VHSetTitleOp(author identity.Interface, id entity.Id, title, was string) *S
 }
 
 const VHFormatVersion = formatVersion
+
+// VHClone: decoding a stored pack yields fresh operation objects (M-PACK read side).
+func (op *CreateOperation) VHClone() dag.Operation {
+	c := *op
+	c.OpBase = dag.VHCloneBase(op.OpBase)
+	return &c
+}
+func (op *AddCommentOperation) VHClone() dag.Operation {
+	c := *op
+	c.OpBase = dag.VHCloneBase(op.OpBase)
+	return &c
+}
+func (op *EditCommentOperation) VHClone() dag.Operation {
+	c := *op
+	c.OpBase = dag.VHCloneBase(op.OpBase)
+	return &c
+}
+func (op *LabelChangeOperation) VHClone() dag.Operation {
+	c := *op
+	c.OpBase = dag.VHCloneBase(op.OpBase)
+	return &c
+}
+func (op *SetStatusOperation) VHClone() dag.Operation {
+	c := *op
+	c.OpBase = dag.VHCloneBase(op.OpBase)
+	return &c
+}
+func (op *SetTitleOperation) VHClone() dag.Operation {
+	c := *op
+	c.OpBase = dag.VHCloneBase(op.OpBase)
+	return &c
+}
